@@ -328,9 +328,10 @@ func evmDirected(env *Env, rng *RNG) error {
 		}
 		env.Report.Histories++
 	}
-	// D4: a contract creation followed by another message of the same sender in one cosmos tx: ApplyMessageWithConfig
-	// resets the sender's nonce to msg.Nonce()+1 after evm.Create, discarding the increments the ante handler made for
-	// the later messages; the later message's nonce is then accepted a second time
+	// D4 (regression of F-19d, repaired in e39c03d): a contract creation followed by another message of the same sender
+	// in one cosmos tx. Before the repair ApplyMessageWithConfig reset the sender's nonce to msg.Nonce()+1 after
+	// evm.Create, discarding the increments the ante handler had made for the later messages; the later message's nonce
+	// was then accepted a second time. Silent on the repaired tree (nonce n0 -> n0+2, the replay is not attempted).
 	{
 		w, err := newEvmWorld(env, rng, seed+3, half, sdk.ZeroDec(), 1000000000, -1, false)
 		if err == errEvmSetupViolated {
